@@ -19,10 +19,11 @@ META = {
                'thorough': '<=4 recorded individuals; epsilon_add 3x2 / 2x3 points in 2-D, 2x2 in 3-D'},
     'stubs': [],
     'assumptions': ['floats as reals (only comparisons and one subtraction per coordinate in epsilon_add)',
-                    'gd (generational distance) is SciPy cdist + NumPy reductions in C: NOT encoded; it is only smoke-run on concrete '
-                    'points (availability, zero on identical sets) and that run decides nothing',
+                    'gd (generational distance): scipy.spatial.distance.cdist is C code and is replaced by its contract (matrix of Euclidean '
+                    'distances) when the points are symbolic; the aggregation artap adds (nanmin over the reference axis, mean) runs for real on '
+                    'object arrays; a concrete smoke run exercises the real cdist',
                     'CSV export and plotting outside'],
-    'undecided': ['generational distance clause (C code, see assumptions)'],
+    'undecided': ['the Euclidean-distance kernel of generational distance itself (scipy C code, by contract)'],
 }
 
 
@@ -195,6 +196,48 @@ def eps_add(args):
     return body
 
 
+def gd_aggregation(args):
+    """Generational distance with scipy's cdist (C code) replaced by its CONTRACT (the matrix of
+    Euclidean distances, sqrt uninterpreted with (sqrt t)^2 = t): what is decided is the part
+    artap itself adds -- nearest reference point per computed point (np.nanmin over axis 0), mean
+    over the computed points.  On floats (replay, validation) the real cdist runs."""
+    nr, nc, dim = args['nr'], args['nc'], args['dim']
+    import numpy as np
+    import artap.quality_indicator as Q
+    from scipy import spatial as real_spatial
+
+    def s_cdist(a, b, metric='euclidean'):
+        if not core.any_sym([list(p) for p in a]) and not core.any_sym([list(p) for p in b]):
+            return real_spatial.distance.cdist(a, b, metric=metric)
+        out = np.empty((len(a), len(b)), dtype=object)
+        for i, p in enumerate(a):
+            for j, q in enumerate(b):
+                out[i, j] = ops.ssqrt(ops.Sum([(x - y) * (x - y) for x, y in zip(p, q)]))
+        return out
+
+    class _Dist(object):
+        cdist = staticmethod(s_cdist)
+
+    class _Spatial(object):
+        distance = _Dist
+
+    stubs.install((Q, 'spatial', _Spatial))
+
+    def body(ctx):
+        ref = [[ctx.real('r%d_%d' % (i, d)) for d in range(dim)] for i in range(nr)]
+        comp = [[ctx.real('c%d_%d' % (i, d)) for d in range(dim)] for i in range(nc)]
+        g = Q.gd([tuple(p) for p in ref], [tuple(p) for p in comp])
+        ctx.output('gd', g)
+        dist = lambda p, q: ops.ssqrt(ops.Sum([(x - y) * (x - y) for x, y in zip(p, q)]))
+        exp = ops.Sum([ops.smin([dist(r, c) for r in ref]) for c in comp]) / nc
+        ctx.check('gd-is-mean-distance-to-nearest-reference-point', ops.differs(g, exp, 1e-9))
+        ctx.check('gd-nonnegative', g < 0)
+        allin = And(*[Or(*[And(*[x == y for x, y in zip(r, c)]) for r in ref]) for c in comp])
+        ctx.check('gd-zero-when-every-computed-point-is-a-reference-point', And(allin, ops.differs(g, 0.0, 1e-12)))
+        ctx.check('gd-zero-only-then', And(Not(allin), Not(ops.differs(g, 0.0, 0.0))))
+    return body
+
+
 def gd_smoke(args):
     """NOT a solver check: SciPy's cdist is C code.  Concrete availability run only."""
     import artap.quality_indicator as Q
@@ -231,4 +274,7 @@ def configs(tier):
         out.append({'name': 'epsadd-3x3-d1-%s' % mode, 'task': 'eps_add', 'args': {'nr': 3, 'nc': 3, 'dim': 1, 'mode': mode},
                     'weight': 50, 'split': 32, 'engine': {'validate': 30}})
     out.append({'name': 'gd-smoke-concrete', 'task': 'gd_smoke', 'args': {}, 'weight': 1})
+    for nr, nc, dim in ((1, 1, 1), (2, 1, 2), (1, 2, 2), (2, 2, 1)) if tier == 'quick' else ((1, 1, 1), (2, 1, 2), (1, 2, 2), (2, 2, 1), (2, 2, 2), (3, 2, 1), (2, 3, 1)):
+        out.append({'name': 'gd-aggregation-%dx%d-d%d' % (nr, nc, dim), 'task': 'gd_aggregation', 'args': {'nr': nr, 'nc': nc, 'dim': dim},
+                    'weight': 3 ** (nr * nc), 'engine': {'validate': 20, 'first_timeout_s': 3}})
     return out
